@@ -2108,8 +2108,11 @@ fn find_required_sections<'data, A: Arch>(
 
     let mut errors: Vec<Error> = take(resources.errors.lock().unwrap().as_mut());
     // TODO: Figure out good way to report more than one error.
-    if let Some(error) = errors.pop() {
-        return Err(error);
+    // Errors get pushed in whatever order threads encounter them. Sort them so that which error we
+    // report doesn't depend on thread scheduling.
+    errors.sort_by_cached_key(|e| format!("{e:?}"));
+    if !errors.is_empty() {
+        return Err(errors.swap_remove(0));
     }
 
     let mut group_states = unwrap_worker_states(&resources.worker_slots);
